@@ -52,6 +52,15 @@ func runC02(c *core.Ctx) {
 	c02R7(c)
 	c02R8(c, "C02.R8")
 	c02R9(c, "C02.R9")
+	jsonTargetRule(c, "C02.R10", "service/link")
+	// shared with C01 (reported under their C01 ids): an acknowledged subscription stays in the
+	// trie until removed (pruning only of empty leaves, count bookkeeping, one critical section)
+	// and is found by the matcher
+	c01R2(c)
+	c01R3(c)
+	c01R7(c)
+	c01R8(c)
+	c01R9(c)
 }
 
 // chanValidPred: channel.ChannelType != ChannelInvalid for the *security.Channel value ch
